@@ -56,6 +56,8 @@ def cases(tier, seed):
                 # the same strategies under per-point (fixed) observation noise, with and without a learned additional noise
                 for lk in ("fixed", "fixed_learned"):
                     yield {"kind": "strategy", "model": model, "max_cholesky_size": chol, "fast_pred_var": fpv, "sgpr_diagonal_correction": corr, "use_toeplitz": tz, "lik": lk, "seed": rnd.randrange(10**6)}
+        for model, fpv, bb in itertools.product(["kiss", "sgpr", "rff"], [False, True], [[2], [3, 2]]):
+            yield {"kind": "strategy_batch", "model": model, "fast_pred_var": fpv, "batch": bb, "seed": rnd.randrange(10**6)}
         for m, lk in itertools.product((2, 4), ("gaussian", "fixed", "fixed_learned")):
             yield {"kind": "sgpr_bound", "m": m, "lik": lk, "seed": rnd.randrange(10**6)}
         for mean, depth, dims in itertools.product([0.0, 1.2], [1, 2], [1, 2]):
@@ -84,7 +86,7 @@ def run_case(case, ctx):
     from vf import util
 
     g = util.gen(case["seed"])
-    fn = {"multitask": _multitask, "lcm": _lcm, "index": _index, "grid": _grid, "kiss_kernel": _kiss_kernel, "nystrom": _nystrom, "rff": _rff, "strategy": _strategy,
+    fn = {"multitask": _multitask, "lcm": _lcm, "index": _index, "grid": _grid, "kiss_kernel": _kiss_kernel, "nystrom": _nystrom, "rff": _rff, "strategy": _strategy, "strategy_batch": _strategy_batch,
           "sgpr_bound": _sgpr_bound, "wiski_fantasy": _wiski, "interp": _interp, "convergence": _convergence}[case["kind"]]
     fn(case, ctx, g)
     ctx.cell({k: v for k, v in case.items() if k != "seed"})
@@ -425,6 +427,52 @@ def _strategy(case, ctx, g):
     cls = f"{case['model']}:{'cg' if iterative else 'chol'}{':love' if case['fast_pred_var'] else ''}" + ("" if case.get("lik", "gaussian") == "gaussian" else ":" + case["lik"])
     ctx.close("strategy_equals_dense_conditional", mean, ref_m, tol, cls=cls + ":mean", model=case["model"], quantity="mean")
     ctx.close("strategy_equals_dense_conditional", cov, ref_c, tol, cls=cls + ":cov", model=case["model"], quantity="cov")
+
+
+def _strategy_batch(case, ctx, g):
+    """the structure-exploiting prediction strategies on BATCHED models (batch of independent GPs, per-element data and
+    hyper-parameters): element-wise the dense conditional of the matrix the kernel represents"""
+    import torch
+
+    import gpytorch
+    from gpytorch import settings as S
+    from vf import util
+
+    K = gpytorch.kernels
+    B = torch.Size(case["batch"])
+    n, ns = 8, 4
+    X, y, xs = util.rand(g, *B, n, 2) * 1.4 - 0.7, util.randn(g, *B, n), util.rand(g, *B, ns, 2) * 1.4 - 0.7
+    lik = gpytorch.likelihoods.GaussianLikelihood(batch_shape=B)
+    name = case["model"]
+    if name == "kiss":
+        kern = K.ScaleKernel(K.GridInterpolationKernel(K.RBFKernel(batch_shape=B), grid_size=9, num_dims=2, grid_bounds=[(-1.0, 1.0), (-1.0, 1.0)]), batch_shape=B)
+    elif name == "sgpr":
+        kern = K.InducingPointKernel(K.ScaleKernel(K.MaternKernel(nu=2.5, batch_shape=B), batch_shape=B), inducing_points=util.randn(g, *B, 4, 2) * 0.5, likelihood=lik)
+    else:
+        kern = K.ScaleKernel(K.RFFKernel(num_samples=5, num_dims=2, batch_shape=B), batch_shape=B)
+    m = util.GP(X, y, lik, gpytorch.means.ConstantMean(batch_shape=B), kern)
+    util.randomize(m, g, 0.4)
+    m.eval()
+    try:
+        with torch.no_grad(), S.fast_pred_var(case["fast_pred_var"]):
+            out = m(xs)
+            mean, cov = out.mean, out.covariance_matrix
+            J = m.covar_module(torch.cat([X, xs], -2)).to_dense()
+            mu = m.mean_module(torch.cat([X, xs], -2))
+            Kss = J[..., n:, n:]
+            if name == "sgpr":
+                with S.lazily_evaluate_kernels(False):
+                    Kss = m.covar_module.base_kernel(xs).to_dense()
+    except Exception as e:
+        ctx.fail("strategy_equals_dense_conditional", f"batched {name} prediction raised {type(e).__name__}: {str(e)[:160]}", "raise", exc=type(e).__name__, model=name, batched=True)
+        return
+    rm, rc, _, _ = util.dense_conditional(J[..., :n, :n], J[..., n:, :n], Kss, mu[..., :n], mu[..., n:], lik.noise.detach().unsqueeze(-1) * torch.eye(n), y)
+    tol = (1e-5, 1e-5) if case["fast_pred_var"] else (1e-7, 1e-7)
+    cls = f"{name}:batch{list(B)}{':love' if case['fast_pred_var'] else ''}"
+    ctx.close("strategy_equals_dense_conditional", mean, rm, tol, cls=cls + ":mean", model=name, quantity="mean")
+    ctx.close("strategy_equals_dense_conditional", cov, rc, tol, cls=cls + ":cov", model=name, quantity="cov")
+    # no cross-talk: the two batch elements were given different data and hyper-parameters
+    ctx.expect("batch_elements_differ", float((mean[0] - mean[-1]).abs().max()) > 1e-6, "batch elements of the structured model coincide (degenerate cell)")
 
 
 def _sgpr_bound(case, ctx, g):
